@@ -108,13 +108,6 @@ func (cb *CircuitBreaker) Execute(fn func() error) error {
 		return err
 	}
 
-	// Increment request count for half-open state
-	cb.mutex.Lock()
-	if cb.state == StateHalfOpen {
-		cb.requestCount++
-	}
-	cb.mutex.Unlock()
-
 	defer func() {
 		if r := recover(); r != nil {
 			cb.afterRequest(false)
@@ -158,38 +151,32 @@ func (cb *CircuitBreaker) beforeRequest() error {
 		return nil
 	}
 
-	// For Open state, check if we can transition to HalfOpen
-	if state == StateOpen {
-		canRetry := cb.nextAttempt.Before(now)
-		cb.mutex.RUnlock()
+	cb.mutex.RUnlock()
 
-		if canRetry {
-			cb.mutex.Lock()
-			// Double-check state hasn't changed
-			if cb.state == StateOpen && cb.nextAttempt.Before(now) {
-				cb.setState(StateHalfOpen)
-				cb.requestCount = 0
-				cb.successCount = 0
-			}
-			cb.mutex.Unlock()
-			return nil
+	// Open or half-open: the admission test and the trial-request count belong to
+	// one critical section, otherwise concurrent callers all pass the limit check
+	// before any of them is counted.
+	cb.mutex.Lock()
+	defer cb.mutex.Unlock()
+
+	if cb.state == StateOpen {
+		if !cb.nextAttempt.Before(now) {
+			return ErrCircuitBreakerOpen
 		}
-		return ErrCircuitBreakerOpen
+		cb.setState(StateHalfOpen)
+		cb.requestCount = 0
+		cb.successCount = 0
 	}
 
-	// HalfOpen state: check request limit
-	if state == StateHalfOpen {
-		atLimit := cb.requestCount >= cb.maxRequests
-		cb.mutex.RUnlock()
-
-		if atLimit {
+	if cb.state == StateHalfOpen {
+		if cb.requestCount >= cb.maxRequests {
 			return ErrTooManyRequests
 		}
-		return nil
+		cb.requestCount++
 	}
 
-	cb.mutex.RUnlock()
-	return ErrCircuitBreakerOpen
+	// Closed in the meantime (a trial request succeeded): admit
+	return nil
 }
 
 // afterRequest updates the circuit breaker state after a request
